@@ -251,7 +251,9 @@ def _tag_predicates(ctx: Ctx) -> set[str]:
 def check_decorator_stack(ctx: Ctx) -> None:
     """Y4: both factories return hard_break(tag_newline(base)) under is_markdown, the bare base otherwise."""
     repo, prog = ctx.repo, ctx.prog
-    hb = repo.func(f"{LW}:_add_markdown_hard_break_handling")
+    from .. import anchors
+
+    hb = anchors.hard_break_factory(ctx)
     tn = repo.func(f"{TH}:add_tag_newline_handling")
     for q in (f"{LW}:line_wrap_to_width", f"{LW}:line_wrap_by_sentence"):
         fac = repo.func(q)
@@ -285,7 +287,9 @@ def _fmt_stack(vals) -> str:
 def check_hard_break_decorator(ctx: Ctx) -> None:
     """C01: every non-last hard-break segment gets the backslash, segments are rejoined by newline."""
     repo, prog = ctx.repo, ctx.prog
-    fac = repo.func(f"{LW}:_add_markdown_hard_break_handling")
+    from .. import anchors
+
+    fac = anchors.hard_break_factory(ctx)
     w = factory_closure(prog, fac)
     flow = prog.flow(w)
     is_base_call = base_call_predicate(prog, fac, w)
@@ -348,14 +352,17 @@ def check_hard_break_decorator(ctx: Ctx) -> None:
     from ..constfold import Folder, Unknown
 
     try:
-        lb = Folder(repo).const(f"{LW}:_line_break_re")
+        from .. import anchors
+
+        lb_q = anchors.line_break_regex_qual(ctx)
+        lb = Folder(repo).const(lb_q)
         pat = lb.pattern
     except Unknown as e:
         raise AnalysisError(str(e)) from e
     import re as _re
 
     ok = _re.fullmatch(pat, "\\\n") is not None and _re.fullmatch(pat, "  \n") is not None and _re.fullmatch(pat, "\n") is None
-    ctx.ob("R-HARDBREAK", f"{LW}:_line_break_re", ok, f"the split pattern {pat!r} must match backslash-newline and two-spaces-newline but not a soft break", "line_wrappers.py")
+    ctx.ob("R-HARDBREAK", f"{LW} :: hard-break split pattern", ok, f"the split pattern {pat!r} must match backslash-newline and two-spaces-newline but not a soft break", "line_wrappers.py")
 
 
 def _is_last_index_test(e: ast.AST) -> bool:
